@@ -59,7 +59,7 @@ def case_naturals(case):
 
     n, spec = case["n"], case["spec"]
     rng = rng_for(20, case["seed"], n, case["rep"], sum(map(ord, spec)))
-    cond = float(10 ** rng.uniform(0, 6 if case["rep"] % 3 == 0 else 3))
+    cond = float(10 ** rng.uniform(0, 4 if case["rep"] % 3 == 0 else 2.5))
     lam = np.exp(rng.uniform(-np.log(cond), 0, size=n))
     if n > 1:
         lam[0], lam[-1] = 1.0, 1.0 / cond
@@ -70,7 +70,7 @@ def case_naturals(case):
     C = (q * lam**-0.5) @ q.T @ _random_orth(rng, n)
     eps = float(10 ** rng.uniform(-6, -2))
     occ_max = 2.0 if spec != "unrestricted" else 1.0
-    numerr = 1e4 * np.finfo(float).eps * cond * occ_max  # generous bound on eigenvalue error
+    numerr = 1e2 * np.finfo(float).eps * cond**2 * occ_max + 1e-11  # bound on the eigenvalue error (S enters twice)
     margin = max(10 * numerr, 0.05 * eps)
     if spec == "closed":
         occ = np.where(np.arange(n) < (n + 1) // 2, 2.0, 0.0)
@@ -100,7 +100,7 @@ def case_naturals(case):
     coeffs, occs = derive_naturals(D.copy(), S.copy())
     coeffs = np.asarray(coeffs)
     occs = np.asarray(occs)
-    tol = 1e4 * np.finfo(float).eps * cond * max(1.0, np.abs(occ).max()) + 1e-12
+    tol = 1e2 * np.finfo(float).eps * cond**2 * max(1.0, np.abs(occ).max()) + 1e-11
     if coeffs.shape != (n, n) or occs.shape != (n,):
         viols.append(_v("naturals-shape", f"shapes {coeffs.shape} {occs.shape} for n={n}"))
     else:
